@@ -25,6 +25,8 @@ BOUNDS = {"quick": dict(dimsets=sorted(k for k in DIMSETS if k not in ("T3_r2_p2
           "thorough": dict(dimsets=sorted(DIMSETS), layouts="as quick, all letter spellings of dim_to_columns, all row permutations for <= 4 rows", sparse="arrays <= 6 cells")}
 for _t in BOUNDS.values():
     _t["variants_beyond_the_base_enumeration"] = VARIANTS
+# exports of arrays holding a NaN entry are always run on float64 too (pandas treats float NaN specially, not symbolic NaN flags)
+SHADOW_ALWAYS = lambda cfg: bool(cfg.get("nan_entry"))
 OPTS = {"quick": dict(shadow_every=25, max_paths=400, max_depth=600), "thorough": dict(shadow_every=100, max_paths=2000, max_depth=1500)}
 
 
@@ -42,6 +44,9 @@ def configs(tier, seed):
                 for sparse in ((False, True) if size <= (4 if tier == "quick" else 6) else (False,)):
                     for fo in ((False, True) if nd >= 2 else (False,)):
                         out.append(dict(h="to_df", op=name, key=f"to_df/{name}/index={int(index)}/d2c={d2c}/sparse={int(sparse)}" + ("/F" if fo else ""), ds=name, index=index, d2c=d2c, sparse=sparse, fortran=fo))
+                    if not sparse and nd >= 2:
+                        # one entry is NaN (an empty cell of the source data, 0/0 shares): it is listed as NaN, not as a number
+                        out.append(dict(h="to_df", op=name + "nan", key=f"to_df/{name}/index={int(index)}/d2c={d2c}/sparse=0/nan_entry", ds=name, index=index, d2c=d2c, sparse=False, fortran=False, nan_entry=True))
         if 2 <= size <= 6:
             for i in range(size):
                 for j in range(size):
@@ -63,14 +68,54 @@ def configs(tier, seed):
                 out.append(dict(h="rowperm", op=name, key=f"rowperm/{name}/{''.join(map(str, perm))}/columns_keep_labels", ds=name, perm=list(perm), columns=True))
                 # ... or with row labels that repeat, as two tables glued together with pd.concat have them
                 out.append(dict(h="rowperm", op=name, key=f"rowperm/{name}/{''.join(map(str, perm))}/columns_repeated_labels", ds=name, perm=list(perm), columns=True, repeated=True))
+    for index in (True, False):
+        for rows in ("id", "rev"):
+            out.append(dict(h="large", op="large", key=f"large/182x182/index={int(index)}/rows={rows}", ds="r2", n=182, index=index, rows=rows))
     return out
+
+
+def _large(cfg, w):
+    """an array with more entries than a 16-bit position can count (182 x 182 = 33124 > 32767): concrete position-coded
+    values with three symbolic cells (first, one beyond position 32767, last), exported and imported in long form"""
+    from flodym import FlodymArray, Dimension, DimensionSet
+
+    n = cfg["n"]
+    dims = DimensionSet(dim_list=[Dimension(name="Origin", letter="o", items=[f"o{i:03d}" for i in range(n)]),
+                                  Dimension(name="Destination", letter="d", items=[f"d{i:03d}" for i in range(n)])])
+    V = np.arange(n * n, dtype=float).reshape(n, n) * 0.5 + 0.25
+    cells = [(0, 0), (n - 2, n - 3), (n - 1, n - 1)]
+    if w.sym:
+        V = V.astype(object)
+    sym_vals = {}
+    for c in cells:
+        sym_vals[c] = w.real(f"x_{c[0]}_{c[1]}", default=float(V[c]) + 1000.125)
+        V[c] = sym_vals[c]
+    if w.sym:
+        from svx.sym import symarr
+
+        V = symarr(V)
+    x = FlodymArray(dims=dims, values=V.copy(), name="big")
+    df = x.to_df(index=cfg["index"])
+    if cfg["rows"] == "rev":
+        df = df.iloc[::-1]
+        if not cfg["index"]:
+            df = df.reset_index(drop=True)
+    y = FlodymArray.from_df(dims=DimensionSet(dim_list=list(dims.dim_list)), df=df)
+    w.ob("shape", np.shape(y.values) == (n, n))
+    if np.shape(y.values) != (n, n):
+        return
+    for c in cells:
+        w.ob(f"symbolic_cell{list(c)}", w.same(y.values[c], sym_vals[c]))
+    yv = np.asarray(y.values)
+    bad = [(i, j) for i in range(n) for j in range(n) if (i, j) not in sym_vals and not (float(yv[i, j]) == float(V[i, j]))]
+    w.ob("every_concrete_cell_under_its_labels", not bad, info=f"{len(bad)} cells differ, first {bad[:3]}")
 
 
 def ctx_setup(cfg, c):
     c.cands = tuple(numeric_items(cfg["ds"]))
 
 
-def _arr(w, name, no_confusion=False, fortran=False):
+def _arr(w, name, no_confusion=False, fortran=False, nan_entry=False):
     from flodym import FlodymArray
 
     dims = build_dims(name)
@@ -83,6 +128,9 @@ def _arr(w, name, no_confusion=False, fortran=False):
         for k in numeric_items(name):
             for v in X.flat:
                 w.assume(w.or_(w.lt(v, k), w.ge(v, k + 1)) if k >= 0 else w.or_(w.le(v, k - 1), w.gt(v, k)))
+    if nan_entry and X.size:
+        last = tuple(k - 1 for k in X.shape)
+        X[last] = w.with_nan(X[last], w.boolean("last_entry_is_nan", default=True))
     vals = X.copy()
     if fortran and vals.ndim >= 2:
         # same labels, column-major memory layout (what x.T, np.asfortranarray or a pure dimension reorder produce)
@@ -99,6 +147,8 @@ def run(cfg, w):
     import pandas as pd
     from flodym import FlodymArray
 
+    if cfg["h"] == "large":
+        return _large(cfg, w)
     name = cfg["ds"]
     spec = DIMSETS[name]
     h = cfg["h"]
@@ -106,7 +156,7 @@ def run(cfg, w):
     # a frame in which a numeric dimension is identified through its items only is ambiguous when values coincide
     # with those items (the property's own exception): such inputs are excluded there, and explored everywhere else
     ambiguous_layout = (h == "headerless" and _confusable(name)) or bool(L) and _confusable(name) and (L["header"] == "items" or (L["d2c"] is not None and any(isinstance(i, (int, float)) for i in spec[L["d2c"][1]][2])))
-    dims, X, x = _arr(w, name, no_confusion=ambiguous_layout, fortran=bool(cfg.get("fortran")))
+    dims, X, x = _arr(w, name, no_confusion=ambiguous_layout, fortran=bool(cfg.get("fortran")), nan_entry=bool(cfg.get("nan_entry")))
     if h == "to_df":
         d2c = None if cfg["d2c"] is None else spec[cfg["d2c"]][1]
         try:
